@@ -444,10 +444,10 @@ theorem planOne_good (k : Nat) (s0 : CallSt) (ps : PlanSt) (cur : Vtx) (path : L
   obtain ⟨x, t, st, xv, rfl, hx, _, _, _⟩ := hp
   unfold planOne
   dsimp only
-  have hthrough : ([Vtx.root, x, Vtx.arg t st].any (fun v => decide (v ∈ [Vtx.func k]))) = false := by
+  have hthrough : ([Vtx.root, x, Vtx.arg t st].filter (fun v => decide (v ∈ [Vtx.func k]))) = [] := by
     cases x <;> first | (rcases hx with h | h <;> cases h; done) | simp
   have hpi : pathInput [Vtx.root, x, Vtx.arg t st] = some x := rfl
-  simp only [if_true, hthrough, Bool.false_eq_true, if_false, hpi]
+  simp only [if_true, hthrough, List.map_nil, List.append_nil, Bool.false_eq_true, if_false, hpi]
   refine ⟨h.1, ?_, ?_, ?_⟩
   · intro v hv
     unfold CallSt.get
